@@ -14,6 +14,7 @@ from fractions import Fraction
 import numpy as np
 
 from . import common as C
+from translate import prox_calls as T
 
 PID = 'C10'
 SHARD_SIZE = 120
@@ -35,27 +36,37 @@ ASSUMPTIONS = [
     'shape information lives in the space: set_zero/ZeroOperator write zeros of the space shape',
 ]
 TRUSTED = [
+    'translate/prox_calls.py (Python ast -> Gallina programs over C10/Prims.v), fail-closed; its reading of each '
+    'statement as a read-then-write primitive is validated by the correspondence on every branch',
     'harness/c10.py reify(): reads class names, closure cells and attributes of live operator objects',
-    'C10/Model.v transcription of the _call bodies (validated by the correspondence on every branch)',
+    'C10/Model.v: hand-written programs only for dense MatrixOperator, the default in-place bridge and the row loop '
+    'of DiagonalOperator; C10/Prims.v: proj_simplex and PointwiseNorm as value-level primitives',
     'Qsqrt_ps: exact square root on squares of rationals (generators construct such inputs)',
 ]
-LEVEL_TEXT = ('Proof: for the heap-level transcription of every _call in proximal_operators.py (with its x-is-out '
-              'branches, copies and temporaries), of the in-place and out-of-place bodies of the nine operator-arithmetic '
-              'classes of operator.py, of Identity/Scaling/Zero/Constant/Multiply/MatrixOperator, of the default in-place '
-              'bridge for operators without `out`, and of DiagonalOperator, Coq proves for EVERY heap, every pair of '
-              'elements x/out that are identical or disjoint, every operator tree (any depth) and every parameter value: '
-              'the in-place call leaves in out exactly the value-level result of the OLD x and changes no other live '
-              'buffer; the out-of-place call returns the same value in a new element; hence P(x, out=x) == P(x). The '
-              'aliased theorem holds over any carrier (no arithmetic law used). The model is tied to the code by '
-              'reifying live operator objects built by the library factories and an in-Coq differential run of P(x), '
-              'P(y,out=y), P(x,out=z) on every branch. The pre-fix proximal_l1 is proved to violate the theorem.')
-LEVEL_NOTE = ('Validated, not proved: that the transcription matches the Python bodies (correspondence on all branches; '
-              'statement coverage of the anchored _call bodies measured), NumPy/ODL primitives being read-then-write, '
-              'SVD of the nuclear-norm proximal and Lambert-W values (opaque functions in the model), user-supplied '
-              'temporaries of the expression classes, rounding/NaN. Axioms: classical reals + funext for the R '
-              'instances; the any-carrier theorem is closed under the global context.')
-TECHNIQUE = ('Coq heap model (store of buffers, fresh-allocation counter) + structural induction over operator trees; '
-             'object reifier + in-Coq differential correspondence')
+LEVEL_TEXT = ('Proof over REGENERATED programs: on every run translate/prox_calls.py (fail-closed Python-ast translator) '
+              're-emits into Gen/ProxCalls.v the heap-level program of every _call of proximal_operators.py (all 14 '
+              'classes + proj_l1, with their x-is-out tests, copies and temporaries), of the proximal classes of '
+              'IndicatorSimplex/IndicatorSumConstraint, and of the in-place and out-of-place bodies of the nine '
+              'expression classes of operator.py and of Scaling/Zero/Constant/MultiplyOperator. Over these definitions '
+              'Coq proves for EVERY heap, every pair of elements x/out that are identical or disjoint, every operator '
+              'tree (any depth, incl. DiagonalOperator, dense MatrixOperator and operators without `out`) and every '
+              'parameter value: the in-place call leaves in out exactly the value-level result of the OLD x and changes '
+              'no other live buffer; the out-of-place call returns the same value in a new element; hence '
+              'P(x, out=x) == P(x). Dropping a copy, swapping the aliased/non-aliased branch or using out as scratch '
+              'before the last read of x breaks these proofs; a construct outside the grammar fails closed. The aliased '
+              'theorem holds over any carrier. Parameters and tree shapes are read off live operator objects and an '
+              'in-Coq differential run of P(x), P(y,out=y), P(x,out=z) validates the translator\'s primitives on every branch.')
+LEVEL_NOTE = ('Validated, not proved: the translator\'s reading of each library call as a read-then-write primitive '
+              '(correspondence on all branches), NumPy/ODL primitives, proj_simplex / PointwiseNorm / SVD / Lambert-W as '
+              'value-level or opaque functions, the three hand-written programs (MatrixOperator.dot, default in-place '
+              'bridge, DiagonalOperator row loop), user-supplied temporaries assumed absent, rounding/NaN. Axioms: '
+              'classical reals + funext for the R instances; the any-carrier theorems are closed under the global context.')
+TECHNIQUE = ('source-to-Gallina translator (regenerated heap programs) + Coq heap model with symbolic execution and structural '
+             'induction over operator trees; object reifier + in-Coq differential correspondence')
+
+
+def translate():
+    return {'Gen/ProxCalls.v': T.translate()}
 
 
 class Unmodelled(Exception):
@@ -180,7 +191,7 @@ def reify(P, wval=None):
         return '(OLeaf (LMat %s))' % C.qss(np.asarray(P.matrix, dtype=float).tolist())
     # ---- proximal classes (factory-local): identified by qualified name
     qn = type(P).__qualname__
-    if not qn.startswith('proximal_') and not qn.startswith('IndicatorSimplex'):
+    if not qn.startswith('proximal_') and not qn.startswith('IndicatorSimplex') and not qn.startswith('IndicatorSumConstraint'):
         raise Unmodelled(qn)
     c = clo(P)
     if cls == 'ProxOpBoxConstraint':
@@ -194,13 +205,7 @@ def reify(P, wval=None):
     if cls == 'ProximalL2Squared':
         return '(OLeaf (LL2Sq %s %s %s))' % (C.q(float(c['lam'])), sv(P.sigma, sp), optv(c['g'], sp))
     if cls == 'ProximalConvexConjL1':
-        if not np.isscalar(P.sigma):
-            if c['g'] is not None:
-                raise Unmodelled('conj_l1 with g and element sigma raises (C07 finding)')
-            sig = 1.0
-        else:
-            sig = float(P.sigma)
-        return '(OLeaf (LCCL1 %s %s %s))' % (C.q(float(c['lam'])), C.q(sig), optv(c['g'], sp))
+        return '(OLeaf (LCCL1 %s %s %s))' % (C.q(float(c['lam'])), sv(P.sigma, sp), optv(c['g'], sp))
     if cls == 'ProximalConvexConjL1L2':
         return '(OLeaf (LCCL1L2 %s %s %s))' % (C.q(float(c['lam'])), C.q(float(P.sigma)), optv(c['g'], sp))
     if cls == 'ProximalL1':
@@ -218,11 +223,12 @@ def reify(P, wval=None):
             raise Unmodelled('Lambert W value not supplied')
         return '(OLeaf (LCCKLCE %s (fun _ => %s)))' % (C.q(float(c['lam'])), C.qss(wval))
     if cls == 'ProximalHuber':
-        if isinstance(sp, odl.ProductSpace):
-            raise Unmodelled('huber on product space raises (C07 finding)')
-        return '(OLeaf (LHuber %s %s))' % (C.q(float(c['gamma'])), C.q(float(P.sigma)))
+        return '(OLeaf (LHuber %s %s %s))' % (C.b(isinstance(sp, odl.ProductSpace)), C.q(float(c['gamma'])),
+                                             C.q(float(P.sigma)))
     if cls == 'ProximalSimplex':
         return '(OLeaf (LSimplex %s))' % C.q(float(c['diameter']))
+    if cls == 'ProximalSum':
+        return '(OLeaf (LSumC %s))' % C.q(float(c['sum_value']))
     raise Unmodelled(qn)
 
 
@@ -357,8 +363,7 @@ def leaf_builders(rng, space, sqrt_free=True):
             add('l1-%s-%s' % (gn, sn), S.proximal_l1(space, lam=sc(), g=g)(sig))
             add('l2sq-%s-%s' % (gn, sn), S.proximal_l2_squared(space, lam=sc(), g=g)(sig))
             add('ccl2sq-%s-%s' % (gn, sn), S.proximal_convex_conj_l2_squared(space, lam=sc(), g=g)(sig))
-            if not (g is not None and sn == 'el'):
-                add('ccl1-%s-%s' % (gn, sn), S.proximal_convex_conj_l1(space, lam=sc(), g=g)(sig))
+            add('ccl1-%s-%s' % (gn, sn), S.proximal_convex_conj_l1(space, lam=sc(), g=g)(sig))
     lo_s, hi_s = -sc(), sc()
     lo_e = el()
     hi_e = lo_e + pos_el()
@@ -374,6 +379,7 @@ def leaf_builders(rng, space, sqrt_free=True):
     if not isinstance(space, odl.ProductSpace):
         add('huber', S.proximal_huber(space, gamma=sc())(sc()))
         add('simplex', S.IndicatorSimplex(space, diameter=sc()).proximal(sc()))
+        add('sumconstraint', S.IndicatorSumConstraint(space, sum_value=rng.choice([1.0, -2.0, 0.5])).proximal(sc()))
     add('zero', odl.ZeroOperator(space))
     add('scaling', odl.ScalingOperator(space, -sc()))
     add('identity', odl.IdentityOperator(space))
@@ -421,6 +427,7 @@ def group_builders(rng, pspace):
     S = odl.solvers
     out = []
     sc = lambda: rng.choice(DY)
+    out.append(('huber-pspace', S.proximal_huber(pspace, gamma=sc())(sc()), lambda: rnd_el_pyth(rng, pspace)))
     for g in (None, rnd_el(rng, pspace)):
         gn = 'g' if g is not None else 'nog'
         lam, sig = sc(), sc()
